@@ -389,6 +389,88 @@ func C08(c *core.Ctx) {
 			continue
 		}
 		c.Decide(bad == "", "R8.4", key, p.Pos(fn.Pos()), "loop body refers only to the loop cursor", "the ancestor-walk loop refers to the start node instead of the loop cursor (at "+bad+"): only the first level is ever unlinked, empty ancestors stay")
+		// R8.4b: inside the loop a node is unlinked only when the *cursor* itself is empty:
+		// every emptiness condition of the type must be asserted on the cursor on each iteration.
+		var cursor *ssa.Phi
+		core.Instrs(fn, func(in ssa.Instruction) {
+			if phi, ok := in.(*ssa.Phi); ok {
+				for _, e := range phi.Edges {
+					if b, ok := core.FieldOf(e, "parent"); ok && core.Strip(b) == ssa.Value(phi) {
+						cursor = phi
+					}
+				}
+			}
+		})
+		payload := map[string][]string{
+			"pitCsTreeNode":        {"children", "pitEntries", "csEntry"},
+			"fibStrategyTreeEntry": {"children", "nexthops", "strategy"},
+			"RibEntry":             {"children", "routes"},
+		}[t[1]]
+		if cursor == nil {
+			c.Und("R8.4", "prune-cursor:"+t[1]+"."+t[2], p.Pos(fn.Pos()), "cannot identify the loop cursor (a phi advanced through .parent)")
+		} else {
+			var unlinks []ssa.Instruction
+			for _, b := range fn.Blocks {
+				if loopHeader(b) == nil {
+					continue
+				}
+				for _, in := range b.Instrs {
+					if _, ok := isBuiltinCall(in, "delete"); ok {
+						unlinks = append(unlinks, in)
+					}
+					if _, _, ok := storeToField(in, "", "children"); ok {
+						unlinks = append(unlinks, in)
+					}
+				}
+			}
+			isCur := func(v ssa.Value) bool { return core.Strip(v) == ssa.Value(cursor) }
+			for _, f := range payload {
+				fld := f
+				empty := &core.Atom{Name: "cursor." + fld + " empty", Match: func(cond ssa.Value) (int, int) {
+					op, x, y, ok := core.Cmp(cond)
+					if !ok {
+						return 0, 0
+					}
+					// nil test
+					if (op == token.EQL || op == token.NEQ) && core.IsNilConst(y) {
+						if b, okF := core.FieldOfDeep(x, fld); okF && isCur(b) {
+							return core.Iff(op == token.EQL)
+						}
+						return 0, 0
+					}
+					k, isC := core.ConstInt(y)
+					if !isC || k != 0 {
+						return 0, 0
+					}
+					okBase := false
+					if l, isLen := core.LenOf(x); isLen {
+						if b, okF := core.FieldOfDeep(l, fld); okF && isCur(b) {
+							okBase = true
+						}
+					} else if cl, isCall := core.Strip(x).(*ssa.Call); isCall && fld == "children" {
+						if id, okID := core.Callee(&cl.Call); okID && id.Name == "getChildrenCount" {
+							if rv, _ := core.CallArgs(&cl.Call); rv != nil && isCur(rv) {
+								okBase = true
+							}
+						}
+					}
+					if !okBase {
+						return 0, 0
+					}
+					switch op {
+					case token.EQL, token.LEQ:
+						return 1, -1
+					case token.NEQ, token.GTR:
+						return -1, 1
+					}
+					return 0, 0
+				}}
+				res := core.Gate(fn, unlinks, pos(empty))
+				c.Decide(len(unlinks) > 0 && res.OK && res.PassEdges > 0, "R8.4", "prune-unlinks-only-empty-cursor:"+t[1]+"."+t[2]+":"+fld, p.Pos(fn.Pos()),
+					"a node is unlinked only on the edge asserting that the loop cursor's "+fld+" is empty",
+					t[1]+"."+t[2]+" can unlink a node whose "+fld+" is not empty (the emptiness test is missing or is made on the start node instead of the loop cursor): live entries below or at that node become unreachable")
+			}
+		}
 		// the loop unlinks from the parent and ascends via .parent
 		asc := false
 		core.Instrs(fn, func(in ssa.Instruction) {
@@ -451,6 +533,40 @@ func C08(c *core.Ctx) {
 			})
 		}
 		c.Floor("R8.5", "emptying stores in "+tn, nE, 3)
+	}
+	// R8.5b hash-table FIB: the virtual-table entries created by insertEntryEnc under a
+	// given ordering of len(name) vs m are reclaimed by pruneTables under that ordering too
+	{
+		ins := c.Fn("R8.5", "fw/table", "FibStrategyHashTable", "insertEntryEnc")
+		pr := c.Fn("R8.5", "fw/table", "FibStrategyHashTable", "pruneTables")
+		if ins != nil && pr != nil {
+			isLen := func(v ssa.Value) bool { _, ok := core.LenOf(v); return ok }
+			isM := func(v ssa.Value) bool { _, ok := core.FieldOf(v, "m"); return ok }
+			isVirt := func(v ssa.Value) bool {
+				if _, ok := core.FieldOf(v, "virtTable"); ok {
+					return true
+				}
+				_, ok := core.FieldOf(v, "virtTableNames")
+				return ok
+			}
+			var relIns, relPr core.RelSet
+			nI, nP := 0, 0
+			core.Instrs(ins, func(in ssa.Instruction) {
+				if mu, ok := in.(*ssa.MapUpdate); ok && isVirt(mu.Map) {
+					nI++
+					relIns |= core.RelReach(ins, in, isLen, isM)
+				}
+			})
+			core.Instrs(pr, func(in ssa.Instruction) {
+				if cl, ok := isBuiltinCall(in, "delete"); ok && isVirt(cl.Call.Args[0]) {
+					nP++
+					relPr |= core.RelReach(pr, in, isLen, isM)
+				}
+			})
+			c.Decide(nI > 0 && nP > 0 && relIns&^relPr == 0, "R8.5", "hashtable-virtual-entries-reclaimed", p.Pos(pr.Pos()),
+				fmt.Sprintf("virtual entries are created when len(name) vs m is in %v and reclaimed when it is in %v", relIns, relPr),
+				fmt.Sprintf("insertEntryEnc creates virtual-table entries when len(name) vs m is in %v but pruneTables reclaims them only when it is in %v: entries for the missing ordering are never removed", relIns, relPr))
+		}
 	}
 	// RIB: route removal prunes
 	for _, m := range []string{"RemoveRouteEnc", "CleanUpFace"} {
